@@ -87,7 +87,7 @@ T = {
     "C15-6": ("a contraction or drop_axis together with an argument that lacks the contracted index and has a single-block dimension", ["C15"], "missed-by-design", None, "index arithmetic inside the vendored dask code"),
     "C16-5": ("asarray(zarr_array, dtype=other) — a storage-backed array-like with an explicit differing dtype", ["C16"], "missed-by-design", None, "NumPy's conversion protocol (__array__) is not in the effect table"),
     "C16-6": ("repeat(x, repeats) with repeats a 0-d integer cubed array", ["C16"], "caught", "LAZY-IMPLICIT-1", "clause index added because of this change"),
-    "C18-6": ("an equal-but-distinct Spec combined once, collected, and a different Spec allocated at the same address", ["C18", "C19", "C20"], "caught", "SPEC-CHECK-2", "existing rule"),
+    "C18-6": ("an equal-but-distinct Spec combined once, collected, and a different Spec allocated at the same address", ["C18", "C19", "C20"], "caught", "SPEC-CHECK-2", "clause no-identity-cache (a module-level container keyed by id(...) consulted by the spec check: positive evidence, reported although the comparison moved into a new private helper) added because of this change; the shape clause itself says 'not decided' there"),
     "C20-6": ("two builder processes importing cubed within the same second with one work_dir, resume=True", ["C20", "C10"], "caught", "CLEANUP-1", "existing clause context-id"),
 }
 
